@@ -1089,8 +1089,9 @@ class PackBasedObjectStore(PackCapableObjectStore, PackedObjectContainer):
                 return True
         # A concurrent repack may have moved the object from loose storage
         # into a new pack between the two lookups above.
-        if self._update_pack_cache() and self.contains_packed(sha):
-            return True
+        while self._update_pack_cache():
+            if self.contains_packed(sha):
+                return True
         return False
 
     def _add_cached_pack(self, base_name: str, pack: Pack) -> None:
@@ -1464,7 +1465,9 @@ class PackBasedObjectStore(PackCapableObjectStore, PackedObjectContainer):
         # A concurrent repack may have moved the object from loose storage
         # into a new pack after the packs were searched; look again, like
         # git's reprepare_packed_git().
-        if self._update_pack_cache():
+        # Repeat while packs keep appearing: one of them may be consolidated
+        # away again before it is read.
+        while self._update_pack_cache():
             try:
                 return self._lookup_in_packs(lambda p: p.get_raw(sha))
             except KeyError:
@@ -1579,18 +1582,22 @@ class PackBasedObjectStore(PackCapableObjectStore, PackedObjectContainer):
                 yield loose_obj
             else:
                 missing.add(oid)
-        if missing:
-            # A concurrent repack may have moved these from loose storage
-            # into a new pack after the packs were searched.
-            for p in self._update_pack_cache():
+        # A concurrent repack may have moved these from loose storage into a
+        # new pack after the packs were searched; repeat while packs keep
+        # appearing, as one may be consolidated away again before it is read.
+        while missing:
+            new_packs = self._update_pack_cache()
+            if not new_packs:
+                break
+            for p in new_packs:
                 try:
                     for o in p.iterobjects_subset(missing, allow_missing=True):
                         yield o
                         missing.remove(o.id)
                 except PackFileDisappeared as exc:
                     self._evict_pack(exc.obj)
-            if missing and not allow_missing:
-                raise KeyError(next(iter(missing)))
+        if missing and not allow_missing:
+            raise KeyError(next(iter(missing)))
 
     def get_unpacked_object(
         self, sha1: bytes, *, include_comp: bool = False
